@@ -12,7 +12,126 @@ pub struct Spellings {
 }
 
 pub fn parts() -> Vec<Box<dyn Part>> {
-    vec![Box::new(Spellings { opts: GenOpts { allow_repeat: false, bare_names_only: true, random_spelling: false, allow_generics: true, ..GenOpts::default() } })]
+    vec![Box::new(Spellings { opts: GenOpts { allow_repeat: false, bare_names_only: true, random_spelling: false, allow_generics: true, ..GenOpts::default() } }), Box::new(SpellingsLattice)]
+}
+
+/// Part `spellings-lattice`: the three spellings at token level over the instruction-selection lattice of C16 / C17 (about half
+/// rejected inputs, misuse of many more kinds than the C15 fault classes `spellings` injects).
+pub struct SpellingsLattice;
+
+/// Content of one attribute as an entry of an `o2o(..)` list: `name(args)` stays, `o2o(list)` contributes its list.
+fn list_entry(g: &proc_macro2::Group) -> proc_macro2::TokenStream {
+    use proc_macro2::{Delimiter, TokenTree};
+    let toks: Vec<TokenTree> = g.stream().into_iter().collect();
+    match toks.as_slice() {
+        [TokenTree::Ident(i), TokenTree::Group(a)] if i == "o2o" && a.delimiter() == Delimiter::Parenthesis => a.stream(),
+        _ => g.stream(),
+    }
+}
+
+/// Re-spell the attributes of every attribute run: `sizes` decides how many adjacent attributes go into one `#[o2o(..)]` list
+/// (1 = each wrapped on its own). Tokens inside attributes are not touched.
+fn respell_tokens(ts: proc_macro2::TokenStream, next_size: &mut dyn FnMut() -> usize, lists: &mut usize) -> proc_macro2::TokenStream {
+    use proc_macro2::{Delimiter, Group, Ident, Punct, Spacing, Span, TokenStream, TokenTree};
+    let toks: Vec<TokenTree> = ts.into_iter().collect();
+    let mut out: Vec<TokenTree> = vec![];
+    let mut i = 0;
+    let is_attr = |i: usize| i + 1 < toks.len() && matches!(&toks[i], TokenTree::Punct(p) if p.as_char() == '#') && matches!(&toks[i + 1], TokenTree::Group(g) if g.delimiter() == Delimiter::Bracket);
+    while i < toks.len() {
+        if is_attr(i) {
+            // a run of adjacent attributes
+            let mut run: Vec<&Group> = vec![];
+            while is_attr(i) {
+                if let TokenTree::Group(g) = &toks[i + 1] {
+                    run.push(g);
+                }
+                i += 2;
+            }
+            let mut k = 0;
+            while k < run.len() {
+                let size = next_size().max(1).min(run.len() - k);
+                if size >= 2 {
+                    *lists += 1;
+                }
+                let mut list = TokenStream::new();
+                for (j, g) in run[k..k + size].iter().enumerate() {
+                    let e = list_entry(g);
+                    if e.is_empty() {
+                        continue;
+                    }
+                    if j > 0 && !list.is_empty() {
+                        list.extend([TokenTree::Punct(Punct::new(',', Spacing::Alone))]);
+                    }
+                    list.extend(e);
+                }
+                let mut content = TokenStream::new();
+                content.extend([TokenTree::Ident(Ident::new("o2o", Span::call_site())), TokenTree::Group(Group::new(Delimiter::Parenthesis, list))]);
+                out.push(TokenTree::Punct(Punct::new('#', Spacing::Alone)));
+                out.push(TokenTree::Group(Group::new(Delimiter::Bracket, content)));
+                k += size;
+            }
+        } else {
+            match &toks[i] {
+                TokenTree::Group(g) => out.push(TokenTree::Group(Group::new(g.delimiter(), respell_tokens(g.stream(), next_size, lists)))),
+                other => out.push(other.clone()),
+            }
+            i += 1;
+        }
+    }
+    let mut r = TokenStream::new();
+    r.extend(out);
+    r
+}
+
+impl Part for SpellingsLattice {
+    fn name(&self) -> &'static str {
+        "spellings-lattice"
+    }
+    fn prop(&self) -> &'static str {
+        "C13"
+    }
+    fn rule(&self) -> String {
+        "The instruction-selection lattice of C16 (bare attributes for every instruction that has a bare form, #[o2o(..)] for the others; about half of the inputs rejected). Oracle: three spellings of the same token-level input - as generated, every attribute wrapped on its own as #[o2o(x(..))], adjacent attributes grouped at random into #[o2o(a(..), b(..))] lists (attribute order kept, argument tokens untouched) - must give the same accept/reject decision and, when accepted, byte-identical token strings. Non-trivial = >= 3 attributes and >= 1 list of >= 2; distinct by input text.".into()
+    }
+    fn cases(&self, tier: Tier) -> usize {
+        match tier {
+            Tier::Quick => 48_000,
+            Tier::Thorough => 800_000,
+        }
+    }
+    fn max_tape(&self) -> usize {
+        192
+    }
+    fn run_case(&self, tape: &[u16], ctx: &Ctx) -> CaseReport {
+        let mut t = Tape::new(tape);
+        let (text, mut labels) = crate::props::c16::gen_lattice(&mut t);
+        let ts: proc_macro2::TokenStream = match text.parse() {
+            Ok(ts) => ts,
+            Err(_) => return CaseReport { key: text, nontrivial: false, labels, verdict: Verdict::Discard("input does not lex".into()) },
+        };
+        let nattrs = text.matches("#[").count();
+        let mut l0 = 0;
+        let tw = respell_tokens(ts.clone(), &mut || 1, &mut l0).to_string();
+        let mut lists = 0;
+        let tg = respell_tokens(ts, &mut || 1 + t.weighted(&[2, 3, 2, 1]), &mut lists).to_string();
+        let (eb, ew, eg) = (expand_items(&text), expand_items(&tw), expand_items(&tg));
+        let (vb, vw, vg) = (verdict_of(&eb), verdict_of(&ew), verdict_of(&eg));
+        labels.push(format!("outcome:{}", vb.split(':').next().unwrap_or("")));
+        let nontrivial = nattrs >= 3 && lists >= 1;
+        let verdict = if vb == vw && vw == vg {
+            Verdict::Pass
+        } else {
+            let which = if vb != vw { ("as-generated", "wrapped", &text, &tw, &vb, &vw) } else { ("as-generated", "grouped", &text, &tg, &vb, &vg) };
+            let panic = [&vb, &vw, &vg].iter().any(|v| v.as_str() == "panic");
+            ctx.fail_or_known(
+                "C13",
+                if panic { Some("panic-is-C16") } else { None },
+                format!("{} and {} spellings of the same instructions differ: {} vs {}", which.0, which.1, crate::xproc::trunc(which.4, 120), crate::xproc::trunc(which.5, 120)),
+                json!({"a_spelling": which.0, "a_input": which.2, "b_spelling": which.1, "b_input": which.3, "a_result": which.4, "b_result": which.5}),
+            )
+        };
+        CaseReport { key: text, nontrivial, labels, verdict }
+    }
 }
 
 #[derive(Clone, Copy)]
